@@ -36,22 +36,18 @@ type Prog struct {
 	parents map[*ast.File]map[ast.Node]ast.Node
 }
 
-func goEnv() []string {
-	env := os.Environ()
-	out := env[:0:0]
-	for _, e := range env {
-		if strings.HasPrefix(e, "GOWORK=") || strings.HasPrefix(e, "GOFLAGS=") || strings.HasPrefix(e, "GOTOOLCHAIN=") ||
-			strings.HasPrefix(e, "GOPROXY=") || strings.HasPrefix(e, "GOSUMDB=") || strings.HasPrefix(e, "PATH=") {
-			continue
-		}
-		out = append(out, e)
-	}
-	gobin := "/opt/veriftools/go1.26.8/bin"
-	out = append(out,
-		"PATH="+gobin+":"+os.Getenv("PATH"),
-		"GOWORK=off", "GOFLAGS=-mod=mod", "GOTOOLCHAIN=local", "GOPROXY=off", "GOSUMDB=off")
-	return out
+func init() {
+	// go/packages looks `go` up through this process's PATH; the system go (1.23) cannot load
+	// the repository (go.mod says 1.26) under GOTOOLCHAIN=local.
+	os.Setenv("PATH", "/opt/veriftools/go1.26.8/bin:"+os.Getenv("PATH"))
+	os.Setenv("GOWORK", "off")
+	os.Setenv("GOFLAGS", "-mod=mod")
+	os.Setenv("GOTOOLCHAIN", "local")
+	os.Setenv("GOPROXY", "off")
+	os.Setenv("GOSUMDB", "off")
 }
+
+func goEnv() []string { return os.Environ() }
 
 // loadProg loads the given package patterns (relative to the thanos module)
 // with typed syntax. Dependencies come from export data, so only the listed
